@@ -10,6 +10,7 @@ mod c07;
 mod c08;
 mod c09;
 mod c10;
+mod c12;
 mod c13;
 mod c14;
 mod c15;
@@ -99,6 +100,7 @@ fn main() {
         "C08" => c08::run(mk("C08")),
         "C09" => c09::run(mk("C09")),
         "C10" => c10::run(mk("C10")),
+        "C12" => c12::run(mk("C12")),
         "C13" => c13::run(mk("C13")),
         "C14" => c14::run(mk("C14")),
         "C15" => c15::run(mk("C15")),
